@@ -55,6 +55,15 @@ def gen_case(rng, k):
     dz = [round(rng.uniform(4.0, 20.0) if viafile else rng.uniform(5.0, 100.0), 1) for _ in range(nz)]
     org = [round(rng.uniform(-100, 100), 1), round(rng.uniform(-100, 100), 1), round(rng.uniform(0, 100), 1)] if viafile else \
         [round(rng.uniform(-5000, 5000), 1), round(rng.uniform(-5000, 5000), 1), round(rng.uniform(-500, 1500), 1)]
+    if rng.random() < 0.3:
+        # centre coordinates that are exactly zero: a column centred on an axis (kept there by any rotation about the
+        # origin only if both are zero), a layer centred on elevation zero, or the default origin
+        z = rng.randint(0, 3)
+        if z == 0:
+            org = [0.0, 0.0, 0.0]
+        else:
+            dx[0], dy[0], dz[0] = float(2 * rng.randint(3, 20)), float(2 * rng.randint(3, 20)), float(2 * rng.randint(2, 9))
+            org = [-dx[0] / 2 if z in (1, 3) else org[0], -dy[0] / 2 if z in (1, 3) else org[1], dz[0] / 2 if z in (2, 3) else org[2]]
     rot = rng.choice([0.0, 0.0, 17.0, -17.0, 30.0, 90.0, 123.0])
     atm = rng.randint(0, 2)
     conv = rng.randint(0, 3) if not viafile else rng.randint(0, 2)
